@@ -23,6 +23,7 @@ import (
 	"pgregory.net/rapid"
 
 	"verif/internal/hx"
+	"verif/internal/qrref"
 	"verif/internal/qrx"
 )
 
@@ -436,6 +437,46 @@ func checkStream(raw json.RawMessage) error {
 	if res.GetText() != c.Expect {
 		return fmt.Errorf("un-designated byte segment % x with CHARACTER_SET hint %q decoded to %q, expected %q", c.Bytes, c.Hint, res.GetText(), c.Expect)
 	}
+	// the same stream as a complete symbol, read upright and mirrored through the decoder: the hint
+	// must reach the bit-stream parser on every path
+	v := 1
+	for v < 40 && qrref.DataCodewords(v, 0) < len(stream) {
+		v++
+	}
+	if v >= 10 {
+		return nil // the 8-bit count field used above belongs to versions 1-9
+	}
+	data := append([]byte(nil), stream...)
+	for i := 0; len(data) < qrref.DataCodewords(v, 0); i++ {
+		data = append(data, []byte{0xEC, 0x11}[i%2])
+	}
+	final, _ := qrref.Interleave(data, v, 0)
+	m := qrref.Build(final, v, 0, len(c.Bytes)%8)
+	for _, mirrored := range []bool{false, true} {
+		bm, _ := gozxing.NewBitMatrix(m.N, m.N)
+		for y := 0; y < m.N; y++ {
+			for x := 0; x < m.N; x++ {
+				if m.M[y][x] {
+					if mirrored {
+						bm.Set(y, x)
+					} else {
+						bm.Set(x, y)
+					}
+				}
+			}
+		}
+		var r2 *common.DecoderResult
+		var e2 error
+		if e := hx.Safe(func() error { r2, e2 = decoder.NewDecoder().Decode(bm, hints); return nil }); e != nil {
+			return e
+		}
+		if e2 != nil {
+			return fmt.Errorf("symbol (mirrored=%v) carrying the un-designated byte segment % x not decoded: %v", mirrored, c.Bytes, e2)
+		}
+		if r2.GetText() != c.Expect {
+			return fmt.Errorf("symbol (mirrored=%v) carrying the un-designated byte segment % x, read with CHARACTER_SET hint %q, decoded to %q, expected %q", mirrored, c.Bytes, c.Hint, r2.GetText(), c.Expect)
+		}
+	}
 	return nil
 }
 
@@ -599,7 +640,9 @@ func TestCheck(t *testing.T) {
 					rs[i] = ks[(i*131+li*17)%len(ks)]
 				}
 				cs := RTCase{Charset: "Shift_JIS", Name: "Shift_JIS", Text: string(rs)}
-				c.Note("kanji_mode_long_texts", fmt.Sprintf("len=%d", n), true, hx.HashS("kanjilong", cs.Text), func() any { return RTCase{Charset: "Shift_JIS", Name: "Shift_JIS", Text: string(rs[:20]) + fmt.Sprintf("...(%d characters)", n)} })
+				c.Note("kanji_mode_long_texts", fmt.Sprintf("len=%d", n), true, hx.HashS("kanjilong", cs.Text), func() any {
+					return RTCase{Charset: "Shift_JIS", Name: "Shift_JIS", Text: string(rs[:20]) + fmt.Sprintf("...(%d characters)", n)}
+				})
 				c.Enum("kanji_mode_long_texts", "roundtrip", cs, nil)
 			}
 			c.SetExhaustive("kanji_mode_long_texts", true)
